@@ -79,3 +79,86 @@ def history(text, rnd, length):
         undo.append(cur)
         out.append((new, near))
     return out
+
+
+# ------------------------------------------------------------------ structured histories
+
+VALUES = ['1', '"s"', '2.5', '[1]', '{"k": 1}', '(1, "t")', 'None', 'Box()', 'len']
+
+
+def new_state(rnd):
+    """A small program as a structure: functions (return or yield a value expression, with a
+    parameter list), one class, and module-level uses of every function."""
+    st = {'funcs': [], 'cls_attr': rnd.choice(VALUES[:5]), 'serial': 0}
+    for _ in range(rnd.randint(2, 4)):
+        add_func(st, rnd)
+    return st
+
+
+def add_func(st, rnd):
+    st['serial'] += 1
+    st['funcs'].append({'name': 'fn%d' % st['serial'], 'params': rnd.choice(['', 'a', 'a, b=2', '*args', 'a, *, key=None']),
+                        'kind': rnd.choice(['return', 'return', 'yield']),
+                        'value': rnd.choice(VALUES), 'lead': rnd.randint(0, 2), 'doc': rnd.random() < 0.3})
+
+
+def render_state(st):
+    """Returns (text, positions) -- positions: cursor spots whose answers depend on the functions."""
+    L = ['class Box:', '    attr = %s' % st['cls_attr'], '    def get(self):', '        return self.attr', '']
+    pos = []
+    for f in st['funcs']:
+        L.append('def %s(%s):' % (f['name'], f['params']))
+        if f['doc']:
+            L.append('    """doc of %s"""' % f['name'])
+        for i in range(f['lead']):
+            L.append('    tmp%d = %d' % (i, i))
+        L.append('    %s %s' % (f['kind'], f['value']))
+        L.append('')
+    for f in st['funcs']:
+        args = {'': '', 'a': '1', 'a, b=2': '1', '*args': '1, 2', 'a, *, key=None': '1, key=3'}[f['params']]
+        L.append('r_%s = %s(%s)' % (f['name'], f['name'], args))
+        pos.append((len(L), 2))                          # infer / goto on the result variable
+        L.append('r_%s.' % f['name'])
+        pos.append((len(L), len(L[-1])))                 # completion on the result
+        L.append('for it_%s in %s(%s): it_%s' % (f['name'], f['name'], args, f['name']))
+        pos.append((len(L), len(L[-1])))
+        L.append('%s(' % f['name'])
+        pos.append((len(L), len(L[-1])))                 # signature
+    L.append('Box().get().')
+    pos.append((len(L), len(L[-1])))
+    return '\n'.join(L) + '\n', pos
+
+
+def edit_state(st, rnd):
+    kind = rnd.choice(['toggle_kind', 'toggle_kind', 'value', 'params', 'params', 'rename', 'add',
+                       'remove', 'cls_attr', 'lead', 'doc'])
+    f = rnd.choice(st['funcs'])
+    if kind == 'toggle_kind':
+        f['kind'] = 'yield' if f['kind'] == 'return' else 'return'
+    elif kind == 'value':
+        f['value'] = rnd.choice([v for v in VALUES if v != f['value']])
+    elif kind == 'params':
+        f['params'] = rnd.choice([p for p in ['', 'a', 'a, b=2', '*args', 'a, *, key=None'] if p != f['params']])
+    elif kind == 'rename':
+        st['serial'] += 1
+        f['name'] = 'fn%d' % st['serial']
+    elif kind == 'add' and len(st['funcs']) < 6:
+        add_func(st, rnd)
+    elif kind == 'remove' and len(st['funcs']) > 1:
+        st['funcs'].remove(f)
+    elif kind == 'cls_attr':
+        st['cls_attr'] = rnd.choice([v for v in VALUES[:5] if v != st['cls_attr']])
+    elif kind == 'lead':
+        f['lead'] = (f['lead'] + 1) % 3
+    else:
+        f['doc'] = not f['doc']
+    return kind
+
+
+def structured_history(rnd, length):
+    st = new_state(rnd)
+    out = [render_state(st) + ('initial',)]
+    for _ in range(length):
+        k = edit_state(st, rnd)
+        out.append(render_state(st) + (k,))
+    return out
